@@ -298,6 +298,15 @@ func emitPASwitchState(e *emitter, p *pkg) {
 		}
 		if i < len(st) && isWrappedRet(st[i]) {
 			i++
+		} else if i+1 < len(st) {
+			// the same with the lookup as a statement of its own: `w := c.protected(); if w != nil { return w, nil }`
+			if x := paWrappedLocal(p, st[i]); x != "" {
+				if is, ok := st[i+1].(*ast.IfStmt); ok && is.Init == nil && is.Else == nil && len(is.Body.List) == 1 && p.src(is.Cond) == x+" != nil" {
+					if rs, ok := is.Body.List[0].(*ast.ReturnStmt); ok && len(rs.Results) == 2 && p.src(rs.Results[0]) == x && p.src(rs.Results[1]) == "nil" {
+						i += 2
+					}
+				}
+			}
 		}
 		detectOK := false
 		if i < len(st) {
